@@ -58,6 +58,9 @@ def run(ctx):
     c04_2(ctx, spec)
     c04_3(ctx)
     c04_4(ctx)
+    # the interned size cost is computed on the generator the bundle would be emitted as: (coin, puzzle, solution) order (shared with C08.2)
+    from . import c08
+    c08.c08_triples(ctx, R="C04.4")
 
 
 def c04_1(ctx, spec):
@@ -327,6 +330,26 @@ def c04_4(ctx, R="C04.4", eps_only=None):
         ctx.ob(R, "entry:%s:clvm-cost" % ep, ok_runs,
                "%s passes the remaining budget to each run_program and subtracts each returned cost" % ep,
                found={"run_program": len(runs), "subtract_cost": len(subs)})
+        # the condition parser is handed the *remaining* budget (the local that subtract_cost decrements), not the caller's limit
+        cps = [(bi, n_, t) for bi, n_, t in eb.calls() if n_.startswith(CC + "conditions::parse_spends") or n_.startswith(CC + "conditions::process_single_spend")]
+        okb = len(cps) == 1
+        found_root = None
+        if okb:
+            bi, n_, t = cps[0]
+            cal = fb.fns.get(U.flat(n_))
+            idx = None
+            if cal is not None:
+                cb_ = Body(cal, fb)
+                pn = [cb_.names.get(i) for i in range(1, cb_.argc + 1)]
+                idx = pn.index("max_cost") if "max_cost" in pn else None
+            if idx is None:
+                okb = False
+            else:
+                found_root = _root_name(eb, t["args"][idx])
+                okb = found_root == "cost_left"
+        ctx.ob(R, "entry:%s:condition-budget" % ep, okb,
+               "%s gives the condition parser its remaining budget `cost_left` (condition costs count against what CLVM and size left over)" % ep,
+               found=found_root)
         # the byte (or vbyte) cost is subtracted once before any CLVM run
         def _is_size_cost(st):
             op_ = st["args"][1]
@@ -365,3 +388,25 @@ def c04_4(ctx, R="C04.4", eps_only=None):
             if b.ret_assignments() and b.ret_assignments()[0][1] != "call" else []
         ctx.ob(R, "interned_vbytes", ("2" in s and "3" in s) or set(consts) >= {2, 3},
                "interned_vbytes = sum(atom bytes) + 2*atoms + 3*pairs (weights 2 and 3 present)", found=s[:300])
+
+
+def _root_name(b, op, depth=0):
+    """debug name of the local an operand is a copy / (re)borrow of"""
+    pl = op.get("cp") or op.get("mv")
+    if not pl or depth > 10:
+        return None
+    l = pl["l"]
+    if l in b.names and not [e for e in pl.get("p", []) if e != "*"]:
+        return b.names[l]
+    ds = b.defs().get(l, [])
+    if len(ds) == 1 and ds[0][0] == "s":
+        rv = ds[0][3]["rv"]
+        if rv["k"] == "use":
+            return _root_name(b, rv["a"], depth + 1)
+        if rv["k"] in ("ref", "rawptr"):
+            l2 = rv["pl"]["l"]
+            if not [e for e in rv["pl"].get("p", []) if e != "*"]:
+                if l2 in b.names:
+                    return b.names[l2]
+                return _root_name(b, {"cp": {"l": l2}}, depth + 1)
+    return None
